@@ -269,6 +269,12 @@ func build(t *term) c.Parser {
 		return c.Seq(a(0), a(1), a(2))
 	case "oneof":
 		return c.OneOf(a(0), a(1))
+	case "seqone":
+		return c.Seq(a(0))
+	case "oneofone":
+		return c.OneOf(a(0))
+	case "oneofthree":
+		return c.OneOf(a(0), a(1), a(2))
 	case "choose":
 		return c.Choose(c.Conditional{Gate: a(0), OnSuccess: a(1)}, c.Conditional{Gate: c.Ok(), OnSuccess: a(2)})
 	case "any":
@@ -307,7 +313,7 @@ func model(t *term, toks []string, pos int, ill *bool) mres {
 		return fail
 	case "ok":
 		return mres{true, pos, nil}
-	case "and", "seq":
+	case "and", "seq", "seqone":
 		res := []string{}
 		p := pos
 		for i := range t.Args {
@@ -319,7 +325,7 @@ func model(t *term, toks []string, pos int, ill *bool) mres {
 			p = r.pos
 		}
 		return mres{true, p, res}
-	case "oneof":
+	case "oneof", "oneofone", "oneofthree":
 		for i := range t.Args {
 			if r := a(i, pos); r.ok {
 				return r
@@ -587,6 +593,9 @@ type combSpec struct {
 
 var combinators = []combSpec{{"and", 2}, {"oneof", 2}, {"any", 2}, {"sepby", 2}, {"assert", 1}, {"not", 1}, {"drop", 1}, {"fmap", 1}, {"choose", 3}, {"surr", 3}, {"seq", 3}}
 
+// outerOnly: further arities of Seq and OneOf, applied as the outermost combinator only (not as arguments of others)
+var outerOnly = []combSpec{{"seqone", 1}, {"oneofone", 1}, {"oneofthree", 3}}
+
 func prims() []*term {
 	return []*term{{Op: "accept", X: "a"}, {Op: "accept", X: "b"}, {Op: "ok"}}
 }
@@ -594,7 +603,11 @@ func prims() []*term {
 // termsOver builds every application of every combinator to arguments drawn
 // from args (third argument of the ternary ones from third).
 func termsOver(args, third []*term, f func(*term) bool) bool {
-	for _, cs := range combinators {
+	return termsOverOf(combinators, args, third, f)
+}
+
+func termsOverOf(combs []combSpec, args, third []*term, f func(*term) bool) bool {
+	for _, cs := range combs {
 		switch cs.arity {
 		case 1:
 			for _, a := range args {
@@ -667,7 +680,7 @@ func init() {
 		ID:    "C13",
 		Level: "model_checking",
 		Rule: "(a) breadth-first search over all sequences of Next/Snapshot/Rollback/Commit (Rollback/Commit only with an open snapshot) on the real TLexer for 8 inputs, every path executed (states = distinct (readp, writep, snapshot stack), counted but not used for pruning), every step compared with a fresh plain scan; plus, on a 700-token input, two nested snapshots opened at every 7th (3rd) position p1 and p2 = p1 + {1, 2, 5, 90, 255, 256, 257} and rolled back / committed from a dense set of later positions; " +
-			"(b) every parser term built from Accept a, Accept b, Ok and And/Seq/OneOf/Choose/Any/SeparatedBy/SurroundedBy/Assert/Not/Drop/Fmap to depth 2 (quick: third argument of ternary combinators primitive) x all 121 token streams over {a,b,c} of length <= 4 x {bare, wrapped in OneOf(T, Ok)} x {real TLexer, list lexer}, compared with an ordered-choice recogniser on accept/reject, result list and input position left; " +
+			"(b) every parser term built from Accept a, Accept b, Ok and And/Seq (1 and 3 parsers)/OneOf (1, 2 and 3 parsers)/Choose/Any/SeparatedBy/SurroundedBy/Assert/Not/Drop/Fmap to depth 2 (quick: third argument of ternary combinators primitive) x all 121 token streams over {a,b,c} of length <= 4 x {bare, wrapped in OneOf(T, Ok)} x {real TLexer, list lexer}, compared with an ordered-choice recogniser on accept/reject, result list and input position left; " +
 			"states = distinct TLexer states; distinct_nontrivial = TLexer states + (term, stream, lexer) triples on which the term consumed input or failed after consuming",
 		Assumptions: []string{
 			"the (readp, writep, snapshot stack) key is sound because transaction.go branches on nothing else",
@@ -729,6 +742,12 @@ func c13Run(w *core.W) {
 			return
 		}
 	}
+	if !termsOverOf(outerOnly, d0, d0, judge) {
+		return
+	}
 	w.Family("terms-depth2")
-	termsOver(d1, third, judge)
+	if !termsOver(d1, third, judge) {
+		return
+	}
+	termsOverOf(outerOnly, d1, third, judge)
 }
